@@ -5,6 +5,7 @@ import (
 	"math/rand"
 	"net"
 	"sort"
+	"sync"
 	"strings"
 	"sync/atomic"
 	"time"
@@ -53,6 +54,7 @@ func init() {
 
 type c16model struct {
 	cl      *fakenode.Cluster
+	mu      sync.Mutex // dup, extra: read by the nodes' goroutines
 	down    map[*fakenode.Node]bool
 	extra   []fakenode.PeerRow // invalid rows currently reported
 	dup     *fakenode.Node     // node whose row is reported twice
@@ -93,11 +95,16 @@ func (m *c16model) peersView(n *fakenode.Node) []fakenode.PeerRow {
 		}
 		r := m.cl.RowFor(o)
 		rows = append(rows, r)
-		if m.dup == o {
+		m.mu.Lock()
+		d := m.dup == o
+		m.mu.Unlock()
+		if d {
 			rows = append(rows, r)
 		}
 	}
+	m.mu.Lock()
 	rows = append(rows, m.extra...)
+	m.mu.Unlock()
 	return rows
 }
 
@@ -356,12 +363,14 @@ func c16direct(c *runner.Ctx, i int) {
 		others := nodes[1:]
 		step := r.Intn(15)
 		desc := ""
+		m.mu.Lock()
 		if step != 5 {
 			m.dup = nil
 		}
 		if step != 4 {
 			m.extra = nil
 		}
+		m.mu.Unlock()
 		switch {
 		case step == 0 && len(nodes) < 7:
 			ip := net.IPv4(10, 0, 1, byte(m.nextIP)).To4()
@@ -381,9 +390,6 @@ func c16direct(c *runner.Ctx, i int) {
 			cl.RemoveNode(n)
 			m.removed = append(m.removed, n)
 			delete(m.down, n)
-			if m.dup == n {
-				m.dup = nil
-			}
 			desc = "remove " + n.IP.String()
 			c.Add("step_remove", 1)
 			changed = true
@@ -415,7 +421,7 @@ func c16direct(c *runner.Ctx, i int) {
 			c16settle(sess, m)
 			refresh()
 		case step == 4:
-			m.extra = nil
+			var extra []fakenode.PeerRow
 			for k := 0; k <= r.Intn(2); k++ {
 				row := fakenode.PeerRow{Peer: net.IPv4(10, 0, 3, byte(m.nextIP)).To4(), RPC: net.IPv4(10, 0, 3, byte(m.nextIP)).To4(), HostID: func() []byte { u := c16id(m.nextID); return u[:] }(), DC: "dc0", Rack: "r0", Tokens: []string{"1"}, Version: "3.11.4", SchemaVer: cl.SchemaVer[:]}
 				m.nextIP++
@@ -432,21 +438,25 @@ func c16direct(c *runner.Ctx, i int) {
 				default:
 					row.Tokens = nil
 				}
-				m.extra = append(m.extra, row)
+				extra = append(extra, row)
 			}
-			desc = fmt.Sprintf("%d invalid peer rows", len(m.extra))
+			m.mu.Lock()
+			m.extra = extra
+			m.mu.Unlock()
+			desc = fmt.Sprintf("%d invalid peer rows", len(extra))
 			c.Add("step_invalid_rows", 1)
 			refresh()
 		case step == 5 && len(others) > 0:
-			m.dup = others[r.Intn(len(others))]
-			desc = "duplicate row for " + m.dup.IP.String()
+			dn := others[r.Intn(len(others))]
+			m.mu.Lock()
+			m.dup = dn
+			m.mu.Unlock()
+			desc = "duplicate row for " + dn.IP.String()
 			c.Add("step_duplicate_row", 1)
 			err := refresh()
 			if err != nil {
 				desc += " (refresh error: " + clipS(err.Error()) + ")"
 			}
-			dupNow := m.dup
-			defer func() { _ = dupNow }()
 		case step == 6 && len(others) > 0:
 			n := others[r.Intn(len(others))]
 			if m.down[n] {
